@@ -345,22 +345,33 @@ pub fn replay(path: &str) -> i32 {
 
 /// hashes of the first `n` seeds (two runs each, in this process)
 pub fn selfcheck_hashes(property: &str, base: u64, n: u64) -> Vec<(u64, u64, u64)> {
+    selfcheck_hashes_threads(property, base, n, 16)
+}
+
+/// the same over a pool of `threads` workers (each plan runs twice, back to back, on one worker)
+pub fn selfcheck_hashes_threads(property: &str, base: u64, n: u64, threads: usize) -> Vec<(u64, u64, u64)> {
+    let next = AtomicU64::new(0);
+    let out: Mutex<Vec<(u64, u64, u64)>> = Mutex::new(vec![]);
     std::thread::scope(|s| {
-        let hs: Vec<_> = (0..n)
-            .map(|i| {
-                let seed = base.wrapping_add(i);
-                s.spawn(move || {
-                    with_capture(|| {
-                        let plan = gen::plan_for(property, seed);
-                        let a = run_plan(&plan).summary.hash;
-                        let b = run_plan(&plan).summary.hash;
-                        (seed, a, b)
-                    })
+        for _ in 0..threads.max(1).min(n.max(1) as usize) {
+            s.spawn(|| {
+                with_capture(|| loop {
+                    let i = next.fetch_add(1, Ordering::Relaxed);
+                    if i >= n {
+                        break;
+                    }
+                    let seed = base.wrapping_add(i);
+                    let plan = gen::plan_for(property, seed);
+                    let a = run_plan(&plan).summary.hash;
+                    let b = run_plan(&plan).summary.hash;
+                    out.lock().unwrap().push((seed, a, b));
                 })
-            })
-            .collect();
-        hs.into_iter().map(|h| h.join().unwrap()).collect()
-    })
+            });
+        }
+    });
+    let mut v = out.into_inner().unwrap();
+    v.sort();
+    v
 }
 
 /// re-executes this binary (`dcsim hashes <ID> <base> <n>`) and parses `seed hash` lines
@@ -711,7 +722,7 @@ pub fn check(a: &CheckArgs) -> i32 {
             "note": "streams that ended in an error although only finite faults (loss/dup/reorder/short blackhole) were injected; tolerated by the property (deliver exactly or fail promptly), listed for triage"},
         "components": {
             "real": ["s2n-quic-dc stream send/recv state machines and workers (UDP, bach environment)", "dc packet encoders/decoders (stream, control, secret-control)", "dc crypto (aws-lc AEAD/HMAC), key schedule", "path::secret::Map, entries, sender/receiver key-id state, socket pool + router + accept queue"],
-            "stub": ["dc handshake (PSK over QUIC + s2n-tls) replaced by the crate's test_insert_pair / in the map driver by the public dc::Path callbacks with a fixed TLS exporter", "network (bach net + /verif link allocator)", "clock and executor (bach virtual time, single thread)", "map control socket (real std::net::UdpSocket in the crate: StaleKey/ReplayDetected leave the simulation unobserved)"]
+            "stub": ["dc handshake (PSK over QUIC + s2n-tls) replaced by the map's public dc::Endpoint/dc::Path callbacks driven with a plan-derived TLS exporter (simulator and map driver); the pair test_insert_pair inserts first is superseded before any stream opens", "network (bach net + /verif link allocator)", "clock and executor (bach virtual time, single thread)", "map control socket (real std::net::UdpSocket in the crate: StaleKey/ReplayDetected leave the simulation unobserved)"]
         },
         "determinism_selfcheck": {"seeds": det_n, "in_process_rerun_equal": det_inproc_equal, "fresh_process_equal": det_xproc_equal},
         "known_findings_seen": known_seen,
@@ -730,8 +741,8 @@ pub fn check(a: &CheckArgs) -> i32 {
     let assumptions: Vec<&str> = vec![
         "sampling, not proof: a clean batch is evidence only",
         "UDP transport only: dc over TCP is typed on tokio::net::TcpStream and bach has no TCP, so that half of C20 is not exercised",
-        "the dc handshake is replaced by test_insert_pair (AES_128_GCM only in the simulator; AES_256_GCM only in the map driver)",
-        "path secrets are random per run (aws-lc RNG, no seam): ciphertext differs between runs, therefore faults and forgeries are positional and the trace hash covers (time, src, dst, len, fate, app results), not bytes",
+        "the dc handshake is replaced by the dc::Path callbacks with a path secret derived from the plan (cipher suite AES_128_GCM or AES_256_GCM chosen per seed, in the simulator and in the map driver)",
+        "path secrets, keys, credential ids and therefore all stream/control ciphertext are functions of the plan; the trace hash covers (time, src, dst, len, bytes, fate, app results). Only the stateless-reset token inside UnknownPathSecret packets is random (server map signer, no seam): those bytes are excluded from the hash and faults/forgeries are positional",
         "tasks are interleaved by bach's FIFO executor perturbed by planned yields and sub-microsecond delivery order; no preemption inside a poll",
         "StaleKey/ReplayDetected are sent by the map through a real OS socket and therefore never appear on the simulated wire; they are covered by the direct map driver and by synthesised forgeries only",
         "UnknownPathSecret's tag authenticates the credential id only (stateless-reset token): flips in its wire_version/queue_id bytes are not required to be rejected by the oracle; see report",
@@ -778,14 +789,22 @@ pub fn main(args: &[String]) -> i32 {
             let prop = it.next().cloned().unwrap_or_default();
             let base: u64 = it.next().and_then(|s| s.parse().ok()).unwrap_or(0);
             let n: u64 = it.next().and_then(|s| s.parse().ok()).unwrap_or(8);
-            for (seed, h1, h2) in selfcheck_hashes(&prop, base, n) {
+            let rest: Vec<String> = it.cloned().collect();
+            let threads = rest.iter().position(|s| s == "--threads").and_then(|i| rest.get(i + 1)).and_then(|s| s.parse().ok()).unwrap_or(16usize);
+            let mut bad = 0;
+            for (seed, h1, h2) in selfcheck_hashes_threads(&prop, base, n, threads) {
                 if h1 != h2 {
                     println!("MISMATCH {seed} {h1:016x} {h2:016x}");
-                    return 2;
+                    bad += 1;
+                } else {
+                    println!("H {seed} {h1:016x}");
                 }
-                println!("H {seed} {h1:016x}");
             }
-            0
+            if bad > 0 {
+                2
+            } else {
+                0
+            }
         }
         "show" => {
             let prop = it.next().cloned().unwrap_or_default();
